@@ -529,6 +529,10 @@ impl WorldA {
         }
         let kind = self.conns[i].st[d][ch].cfg.kind;
         let kn = kind_name(kind);
+        if self.fam == Fam::Multi {
+            // C11: every obtained message names its connection (or is a broadcast recorded for this connection)
+            obs.count("oracle.C11.recipient");
+        }
         // where else does this content exist? (for discriminators)
         let elsewhere = |w: &WorldA| -> &'static str {
             for (ci, c) in w.conns.iter().enumerate() {
@@ -569,6 +573,9 @@ impl WorldA {
                     None => {
                         let e = elsewhere(self);
                         obs.violate("C03", "obtained-foreign-or-corrupt-message", &format!("{}/{}", kn, e), format!("conn {} dir {} ch {} len {}", i, d, ch, bytes.len()));
+                        if e != "no-such-submission" {
+                            obs.violate("C11", "message-obtained-by-wrong-recipient", &format!("{}/{}", kn, e), format!("conn {} dir {} ch {} len {}", i, d, ch, bytes.len()));
+                        }
                         e
                     }
                 };
@@ -600,6 +607,9 @@ impl WorldA {
                     None => {
                         let e = elsewhere(self);
                         obs.violate("C03", "obtained-foreign-or-corrupt-message", &format!("{}/{}", kn, e), format!("conn {} dir {} ch {} len {}", i, d, ch, bytes.len()));
+                        if e != "no-such-submission" {
+                            obs.violate("C11", "message-obtained-by-wrong-recipient", &format!("{}/{}", kn, e), format!("conn {} dir {} ch {} len {}", i, d, ch, bytes.len()));
+                        }
                         obs.violate("C02", "obtained-not-submitted", e, format!("conn {} dir {} ch {} len {}", i, d, ch, bytes.len()));
                         self.conns[i].tainted = true;
                     }
@@ -612,6 +622,9 @@ impl WorldA {
                 if !c.by_content.contains_key(bytes) {
                     let e = elsewhere(self);
                     obs.violate("C03", "obtained-foreign-or-corrupt-message", &format!("{}/{}", kn, e), format!("conn {} dir {} ch {} len {}", i, d, ch, bytes.len()));
+                    if e != "no-such-submission" {
+                        obs.violate("C11", "message-obtained-by-wrong-recipient", &format!("{}/{}", kn, e), format!("conn {} dir {} ch {} len {}", i, d, ch, bytes.len()));
+                    }
                     self.conns[i].tainted = true;
                     return;
                 }
